@@ -406,7 +406,10 @@ impl Family for Mutations {
     }
 }
 
-/// multi-fragment requests whose fragments carry every combination of ids from a small set
+/// multi-fragment requests whose fragments carry every combination of ids from a small set,
+/// arriving whole and with a read ending at / just before / inside / just behind the header of the
+/// second fragment
+const FRAG_CUTS: [Option<i64>; 6] = [None, Some(0), Some(-1), Some(1), Some(4), Some(5)];
 struct FragmentIds {
     ids: Vec<u8>,
 }
@@ -415,12 +418,14 @@ impl Family for FragmentIds {
         "fragment-sequence-ids".into()
     }
     fn len(&self) -> u64 {
-        (self.ids.len() * self.ids.len()) as u64
+        (self.ids.len() * self.ids.len() * FRAG_CUTS.len()) as u64
     }
     fn max_threads(&self) -> Option<usize> {
         Some(8)
     }
     fn run(&self, idx: u64, st: &mut Stats) -> Result<(), Violation> {
+        let sched = idx as usize % FRAG_CUTS.len();
+        let idx = idx / FRAG_CUTS.len() as u64;
         let a = self.ids[idx as usize / self.ids.len()];
         let b = self.ids[idx as usize % self.ids.len()];
         let mut payload = vec![COM_QUERY];
@@ -435,10 +440,18 @@ impl Family for FragmentIds {
             st.nontrivial += 1;
             st.bump("out_of_order_fragments");
         }
-        judge(s, &format!("fragments with ids {} then {}", a, b), st)
+        // where a read ends, relative to the end of the first fragment
+        let end1 = default_handshake().len() + 4 + MAXP;
+        let cuts = match FRAG_CUTS[sched] {
+            None => vec![],
+            Some(d) => vec![(end1 as i64 + d) as usize],
+        };
+        judge_cuts(s, cuts.clone(), &format!("fragments with ids {} then {}, read boundaries {:?} (the first fragment ends at {})", a, b, cuts, end1), st)
     }
     fn describe(&self, idx: u64) -> J {
-        json!({"first_fragment_id": self.ids[idx as usize / self.ids.len()], "second_fragment_id": self.ids[idx as usize % self.ids.len()]})
+        let sched = idx as usize % FRAG_CUTS.len();
+        let idx = idx / FRAG_CUTS.len() as u64;
+        json!({"first_fragment_id": self.ids[idx as usize / self.ids.len()], "second_fragment_id": self.ids[idx as usize % self.ids.len()], "read_boundary_relative_to_the_end_of_the_first_fragment": FRAG_CUTS[sched]})
     }
 }
 
